@@ -57,8 +57,15 @@ func c06Answers() (ocspA, crlA []faultAnswer) {
 		{"truncated-header-only", func(g netsim.Answer) netsim.Answer { return cut(g, func(n int) int { return 4 }) }},
 		{"truncated-half", func(g netsim.Answer) netsim.Answer { return cut(g, func(n int) int { return n / 2 }) }},
 		{"truncated-last-byte", func(g netsim.Answer) netsim.Answer { return cut(g, func(n int) int { return n - 1 }) }},
-		{"garbage", func(g netsim.Answer) netsim.Answer { g.Body = []byte("\x30\x82\xff\xffgarbage garbage garbage"); return g }},
-		{"body-read-error", func(g netsim.Answer) netsim.Answer { g.Body = g.Body[:len(g.Body)/3]; g.ReadErr = netsim.ErrTransport; return g }},
+		{"garbage", func(g netsim.Answer) netsim.Answer {
+			g.Body = []byte("\x30\x82\xff\xffgarbage garbage garbage")
+			return g
+		}},
+		{"body-read-error", func(g netsim.Answer) netsim.Answer {
+			g.Body = g.Body[:len(g.Body)/3]
+			g.ReadErr = netsim.ErrTransport
+			return g
+		}},
 	}
 	// OCSP alphabet
 	ocspA = append(ocspA, faultAnswer{name: "good", good: true, ocsp: goodO})
@@ -128,8 +135,8 @@ type c06Scenario struct {
 	w         *revWorld
 }
 
-var c06BadOCSP = []string{"https://ocsp.test/c0/r0", "ldap://ocsp.test/c0/r0", "ftp://ocsp.test/c0/r0", "", "ocsp.test/no-scheme", "HTTPS://OCSP.TEST/c0/r0"}
-var c06BadCRL = []string{"https://crl.test/c0/dp0/base", "ldap://crl.test/c0/dp0/base", "ftp://crl.test/c0/dp0/base", "crl.test/no-scheme", "file:///etc/passwd", "HTTP://crl.test/c0/dp0/base"}
+var c06BadOCSP = []string{"http://[::1", "%zz", "https://ocsp.test/c0/r0", "ldap://ocsp.test/c0/r0", "ftp://ocsp.test/c0/r0", "", "ocsp.test/no-scheme", "HTTPS://OCSP.TEST/c0/r0"}
+var c06BadCRL = []string{"http://[::1", "%zz", "https://crl.test/c0/dp0/base", "ldap://crl.test/c0/dp0/base", "ftp://crl.test/c0/dp0/base", "crl.test/no-scheme", "file:///etc/passwd", "HTTP://crl.test/c0/dp0/base"}
 
 func (s *c06Scenario) world(variant int) *revWorld {
 	if !s.badURLs {
@@ -492,7 +499,9 @@ func init() {
 		Assumptions: []string{"evidence of good standing = the class of the answer that was actually delivered (request log), as defined in C04/C05", "a panic is recorded as 'no verdict' here and judged by C09",
 			"heavy bodies are confined to one scenario (0.3 s each)"},
 		Scenarios: c06Scenarios,
-		Alphabet:  func(mc.Tier) map[string]int { return map[string]int{"ocsp_answers": len(c06OCSP), "crl_answers": len(c06CRL), "cache_get": len(c06CacheGet), "cache_set": 2, "bad_url_strings": len(c06BadOCSP) + len(c06BadCRL)} },
+		Alphabet: func(mc.Tier) map[string]int {
+			return map[string]int{"ocsp_answers": len(c06OCSP), "crl_answers": len(c06CRL), "cache_get": len(c06CacheGet), "cache_set": 2, "bad_url_strings": len(c06BadOCSP) + len(c06BadCRL)}
+		},
 		Guards: func(s *mc.Stats, t mc.Tier) []string {
 			var w []string
 			for _, o := range []string{"verdict:OK", "verdict:Revoked", "verdict:Unknown"} {
